@@ -830,7 +830,7 @@ def run(rep):
                 "operator / postfix nodes (trees), every operator sequence, an actual syntax error (malformed); "
                 "distinct by printed text / token list")
     rep.assumptions = ["token spans are ordered as produced by the lexer (the model answers bad-token-spans otherwise)",
-                       "model fuel 40*tokens+100 suffices (outOfFuel would show up as a disagreement)",
+                       "model fuel 50*tokens+100 suffices (outOfFuel would show up as a disagreement)",
                        "source text <-> token list is the lexer's business (C14); the model parses token lists"]
     run_extractor()
     vlib.prelude(rep)
